@@ -78,6 +78,7 @@ def run(ctx: Ctx):
     # ---- R08.a duplicate detection ---------------------------------------------------------
     ctx.rule("R08.a", "duplicate detection sees every definition: the transformer rejects a redefinition before atoms are merged in sets; gather_atoms records every kind, tagged; the predicate is 'more than one distinct value'", floor=10)
     check_redefinition_guard(ctx, "R08.a")
+    check_all_items_registered(ctx, "R08.a")
     from . import util as _u8a
 
     _u8a.same_as_reference(
@@ -403,3 +404,44 @@ def check_redefinition_guard(ctx: Ctx, rule: str):
 
     ok_skip = all(any(_non_atom_guard(c) and pol for c, pol in (common.cond_chain(tf.node, s) or [])) for s in skips)
     ctx.check(ok_order and ok_skip, rule, tf.key("check-before-merge"), "the check runs for every atom before it is added to a set", "TreeToODE.ode: the redefinition check does not precede the insertion into the component sets for every atom", tf.where())
+
+
+def check_all_items_registered(ctx: Ctx, rule: str):
+    """TreeToODE.ode: the loop that registers atoms (definitions.setdefault(atom.name, atom) and the insertion into the
+    component sets) runs over *every* item of a parsed line; only Comment / str items may be skipped.  Regrouping the
+    items first (a dict keyed by type, itertools.groupby, a set) can drop items: an assignment before a comment line
+    would silently disappear."""
+    from . import util as _u
+
+    sm = ctx.sm
+    tf = _u.nf(ctx, "transformer.py", "TreeToODE.ode")
+    key = tf.key("every-item-of-a-line")
+    outer = [n for n in tf.node.body if isinstance(n, ast.For)]
+    regs = [c for c in ast.walk(tf.node) if isinstance(c, ast.Call) and isinstance(c.func, ast.Attribute) and c.func.attr == "setdefault" and len(c.args) == 2 and norm(c.args[0]).endswith(".name")]
+    if not outer or not regs:
+        ctx.undecided(rule, key, "TreeToODE.ode: the loop over the parsed lines / the registration of atoms is not found", tf.where())
+        return
+    inner = None
+    for lp in ast.walk(outer[0]):
+        if isinstance(lp, ast.For) and lp is not outer[0] and any(x is regs[0] for x in ast.walk(lp)):
+            inner = lp  # innermost wins (walk is breadth first: keep overwriting)
+    if inner is None or not isinstance(outer[0].target, ast.Name):
+        ctx.undecided(rule, key, "TreeToODE.ode: atoms are not registered in a loop over the items of a line", tf.where())
+        return
+    line = outer[0].target.id
+    it = inner.iter
+    while isinstance(it, ast.Call) and isinstance(it.func, ast.Name) and it.func.id in ("tuple", "list", "iter") and len(it.args) == 1:
+        it = it.args[0]
+    txt = norm(it)
+    lossy = [w for w in ("groupby", ".values()", "set(", "dict(", "fromkeys") if w in txt]
+    # follow one local: `groups = {...}` built from the line
+    if isinstance(it, ast.Name) and it.id != line:
+        defs = [n.value for n in ast.walk(tf.node) if isinstance(n, ast.Assign) and any(isinstance(t, ast.Name) and t.id == it.id for t in n.targets)]
+        txt = " ; ".join(norm(d) for d in defs) or txt
+        lossy = [w for w in ("groupby", ".values()", "set(", "dict(", "fromkeys") if w in txt]
+    if isinstance(it, ast.Name) and it.id == line:
+        ctx.ok(rule, key, "atoms are registered in a loop over the line itself", tf.where(inner))
+    elif lossy or any(isinstance(n, (ast.DictComp, ast.SetComp)) for n in ast.walk(inner.iter)) or ("groups" in txt and "groupby" in norm(tf.node)):
+        ctx.fail(rule, key, f"TreeToODE.ode registers the atoms of `{txt[:90]}`, a regrouping of the line's items ({', '.join(lossy) or 'dict / set'}): items can be merged or dropped by it, so an assignment next to a comment line inside a block can silently disappear from the model", tf.where(inner))
+    else:
+        ctx.undecided(rule, key, f"TreeToODE.ode registers the atoms of `{txt[:90]}`; whether that is every item of the line is not decided", tf.where(inner))
